@@ -7,11 +7,16 @@ package blb_test
 // heartbeat failure report, CheckTracts), the real recovery bookkeeping (detect round, popTask, runTask).
 
 import (
+	"bufio"
+	"encoding/json"
 	"flag"
 	"fmt"
 	"os"
+	"os/exec"
 	"path/filepath"
 	"runtime"
+	"strconv"
+	"strings"
 	"testing"
 
 	vc "github.com/westerndigitalcorporation/blb/pkg/verifcluster"
@@ -103,7 +108,14 @@ func c04Case(root *vw.Rng, ci int, tr *vw.Trace) {
 	c04Report(d, id)
 	c04Stats(d, c)
 	vw.Stat(fmt.Sprintf("heal.rounds.%d", healed), 1)
-	vw.Distinct(fmt.Sprintf("%d/%d/%d/%d/%d", repl, nTS, c.Faults, c.Repairs, healed))
+	fp := fmt.Sprintf("%d/%d/%d/%d/%d", repl, nTS, c.Faults, c.Repairs, healed)
+	vw.Distinct(fp)
+	if os.Getenv("VERIF_CHUNK") != "" {
+		if f, err := os.OpenFile(filepath.Join(vw.OutDir(), "distinct.txt"), os.O_APPEND|os.O_CREATE|os.O_WRONLY, 0o644); err == nil {
+			fmt.Fprintln(f, fp)
+			f.Close()
+		}
+	}
 	d.WriteTrace(tr)
 	if ci < 4 {
 		vw.Sample(fmt.Sprintf("case %d: repl=%d servers=%d blobs=%d events=%d faults=%d recovery tasks=%d heal rounds=%d malformed=%v",
@@ -303,24 +315,102 @@ func TestVerifC04(t *testing.T) {
 	tr := vw.OpenTrace("C04.trace")
 	defer tr.Close()
 	defer vw.Finish("C04")
-	if vw.CaseSelected("dA") {
+	chunk := os.Getenv("VERIF_CHUNK") != ""
+	if !chunk && vw.CaseSelected("dA") {
 		c04DirectedRetry(root, tr, "dA")
 	}
-	if vw.CaseSelected("dB") {
+	if !chunk && vw.CaseSelected("dB") {
 		c04DirectedCrashPull(root, tr, "dB")
 	}
-	if vw.CaseSelected("dC") {
+	if !chunk && vw.CaseSelected("dC") {
 		c04DirectedHopeless(root, tr, "dC")
 	}
-	if vw.CaseSelected("dD") {
+	if !chunk && vw.CaseSelected("dD") {
 		c04DirectedAbandon(root, tr, "dD")
 	}
 	n := vw.Scale(30, 400)
-	for ci := 0; ci < n; ci++ {
+	lo, hi := 0, n
+	if c := os.Getenv("VERIF_CHUNK"); c != "" {
+		k, _ := strconv.Atoi(c)
+		lo, hi = k*c04Chunk, (k+1)*c04Chunk
+		if hi > n {
+			hi = n
+		}
+	} else if vw.Thorough() && os.Getenv("VERIF_CASES") == "" {
+		c04Parent(t, tr, n)
+		os.RemoveAll(logdir)
+		return
+	}
+	for ci := lo; ci < hi; ci++ {
 		if !vw.CaseSelected(fmt.Sprint(ci)) {
 			continue
 		}
 		c04Case(root, ci, tr)
 	}
 	os.RemoveAll(logdir)
+}
+
+const c04Chunk = 40
+
+// c04Parent runs the random cases of a thorough run in child processes (goroutines of finished cases idle
+// forever and slow every quiescence scan down) and merges their traces and results.
+func c04Parent(t *testing.T, tr *vw.Trace, n int) {
+	for k := 0; k*c04Chunk < n; k++ {
+		sub := filepath.Join(vw.OutDir(), fmt.Sprintf("chunk%d", k))
+		os.MkdirAll(sub, 0o755)
+		cmd := exec.Command(os.Args[0], "-test.run=TestVerifC04$", "-test.timeout=1800s")
+		cmd.Env = append(os.Environ(), "VERIF_CHUNK="+fmt.Sprint(k), "VERIF_OUT="+sub)
+		if out, err := cmd.CombinedOutput(); err != nil {
+			t.Fatalf("chunk %d failed: %v\n%s", k, err, out)
+		}
+		f, err := os.Open(filepath.Join(sub, "C04.trace"))
+		if err != nil {
+			t.Fatalf("chunk %d: %v", k, err)
+		}
+		sc := bufio.NewScanner(f)
+		sc.Buffer(make([]byte, 1<<20), 1<<26)
+		for sc.Scan() {
+			line := sc.Text()
+			if strings.HasPrefix(line, "# case ") {
+				tr.Case(strings.Fields(line)[2])
+				continue
+			}
+			if len(line) == 0 {
+				continue
+			}
+			var xs []int64
+			for _, w := range strings.Fields(line[1:]) {
+				v, _ := strconv.ParseInt(w, 10, 64)
+				xs = append(xs, v)
+			}
+			if line[0] == '>' {
+				tr.Op(xs...)
+			} else if line[0] == '<' {
+				tr.Obs(xs...)
+			}
+		}
+		f.Close()
+		var res struct {
+			Stats      map[string]int64 `json:"stats"`
+			Samples    []string         `json:"samples"`
+			Violations []vw.Violation   `json:"violations"`
+		}
+		if b, err := os.ReadFile(filepath.Join(sub, "C04.result.json")); err == nil && json.Unmarshal(b, &res) == nil {
+			for k2, v := range res.Stats {
+				vw.Stat(k2, v)
+			}
+			for _, s := range res.Samples {
+				vw.Sample(s)
+			}
+			for _, v := range res.Violations {
+				vw.Report(v)
+			}
+		}
+		if b, err := os.ReadFile(filepath.Join(sub, "distinct.txt")); err == nil {
+			for _, fp := range strings.Fields(string(b)) {
+				vw.Distinct(fp)
+			}
+		}
+		os.RemoveAll(filepath.Join(sub, "glog"))
+	}
 }
